@@ -7,6 +7,7 @@ import (
 	"reflect"
 	"sync"
 	"time"
+	"unsafe"
 
 	"github.com/philpearl/plenc"
 
@@ -52,6 +53,130 @@ type c10fresh struct {
 	typ   reflect.Type
 	data  []byte
 	first reflect.Value
+}
+
+// heldPointee is what a pointer element of a slice of the target pointed to before the call
+type heldPointee struct {
+	path string
+	ptr  reflect.Value
+	was  reflect.Value
+}
+
+// collectHeld lists the pointees of the pointer elements of every slice reachable in v, the
+// elements beyond the length (up to the capacity) included. A decoded slice holds new elements,
+// each decoded into a zero element (appended ones in the repeated form): whatever the slice held
+// before is the caller's and is not written to.
+func collectHeld(v reflect.Value, path string, depth int, out *[]heldPointee) {
+	if depth > 8 || len(*out) > 400 {
+		return
+	}
+	switch v.Kind() {
+	case reflect.Ptr:
+		if !v.IsNil() {
+			collectHeld(v.Elem(), path+"*", depth+1, out)
+		}
+	case reflect.Struct:
+		if v.Type() == model.TimeT {
+			return
+		}
+		for i := 0; i < v.NumField(); i++ {
+			if v.Type().Field(i).IsExported() {
+				collectHeld(v.Field(i), path+"."+v.Type().Field(i).Name, depth+1, out)
+			}
+		}
+	case reflect.Map:
+		it := v.MapRange()
+		for it.Next() {
+			collectHeld(it.Value(), path+"[k]", depth+1, out)
+		}
+	case reflect.Slice:
+		if v.IsNil() || v.Cap() == 0 {
+			return
+		}
+		full := v.Slice(0, v.Cap())
+		for i := 0; i < full.Len() && i < 64; i++ {
+			e := full.Index(i)
+			if e.Kind() == reflect.Ptr {
+				if !e.IsNil() {
+					pv := reflect.New(e.Type()).Elem() // the pointer itself, not the slot it sits in
+					pv.Set(e)
+					*out = append(*out, heldPointee{fmt.Sprintf("%s[%d]", path, i), pv, model.DeepCopy(e.Elem())})
+				}
+				continue
+			}
+			collectHeld(e, fmt.Sprintf("%s[%d]", path, i), depth+1, out)
+		}
+	}
+}
+
+// soleOwners keeps the held pointees that nothing else in the target can reach: the pointer occurs
+// once in the whole target, and what it points to holds no pointer, slice or map of its own (a
+// pointer field that shares the pointee is decoded INTO by the merge rules, legitimately)
+func soleOwners(root reflect.Value, held []heldPointee) []heldPointee {
+	if len(held) == 0 {
+		return held
+	}
+	seen := map[unsafe.Pointer]int{}
+	var walk func(v reflect.Value, depth int)
+	walk = func(v reflect.Value, depth int) {
+		if depth > 12 {
+			return
+		}
+		switch v.Kind() {
+		case reflect.Ptr:
+			if !v.IsNil() {
+				seen[v.UnsafePointer()]++
+				if seen[v.UnsafePointer()] == 1 {
+					walk(v.Elem(), depth+1)
+				}
+			}
+		case reflect.Struct:
+			if v.Type() == model.TimeT {
+				return
+			}
+			for i := 0; i < v.NumField(); i++ {
+				walk(v.Field(i), depth+1)
+			}
+		case reflect.Map:
+			it := v.MapRange()
+			for it.Next() {
+				walk(it.Key(), depth+1)
+				walk(it.Value(), depth+1)
+			}
+		case reflect.Slice:
+			if !v.IsNil() {
+				full := v.Slice(0, v.Cap())
+				for i := 0; i < full.Len(); i++ {
+					walk(full.Index(i), depth+1)
+				}
+			}
+		}
+	}
+	walk(root, 0)
+	var flat func(t reflect.Type) bool
+	flat = func(t reflect.Type) bool {
+		switch t.Kind() {
+		case reflect.Ptr, reflect.Slice, reflect.Map, reflect.Interface:
+			return false
+		case reflect.Struct:
+			if t == model.TimeT {
+				return true
+			}
+			for i := 0; i < t.NumField(); i++ {
+				if !flat(t.Field(i).Type) {
+					return false
+				}
+			}
+		}
+		return true
+	}
+	out := held[:0]
+	for _, h := range held {
+		if seen[h.ptr.UnsafePointer()] == 1 && flat(h.ptr.Type().Elem()) {
+			out = append(out, h)
+		}
+	}
+	return out
 }
 
 func c10History(c *core.Ctx, idx, worker int, p *plenc.Plenc, cfg model.Cfg, name string, typs []reflect.Type) {
@@ -112,6 +237,9 @@ func c10History(c *core.Ctx, idx, worker int, p *plenc.Plenc, cfg model.Cfg, nam
 		if nt || nt2 {
 			rec.NonTrivial(h ^ h2*31 ^ core.Hash64(typ.String(), name))
 		}
+		var held []heldPointee
+		collectHeld(target.Elem(), "$", 0, &held)
+		held = soleOwners(target.Elem(), held)
 		err, pn = unmarshal(p, data, target.Interface())
 		desc := func() string {
 			return fmt.Sprintf("[%s] op %d of the history\n  type %s\n  prior target %s\n  decoded value %s\n  bytes %s", name, op, typeString(typ), model.Show(prior), model.Show(v), hexHead(data))
@@ -119,6 +247,13 @@ func c10History(c *core.Ctx, idx, worker int, p *plenc.Plenc, cfg model.Cfg, nam
 		if err != nil || pn != "" {
 			rec.Violation("unmarshal-error", fmt.Sprintf("Unmarshal into a populated target failed: %v %s %s", err, pn, desc()), caseExtra(tc, v, data))
 			return
+		}
+		for _, h := range held {
+			rec.Count("held_slice_element_pointees_checked", 1)
+			if d := model.Diff(h.was, h.ptr.Elem(), h.path+"*"); d != "" {
+				rec.Violation("merge", fmt.Sprintf("Unmarshal wrote to what a pointer element of a slice of the target pointed to before the call (the backing array was re-used without being cleared first; a decoded slice holds new elements): %s %s", d, desc()), caseExtra(tc, v, data))
+				return
+			}
 		}
 		if err := cfg.Decode(want.Elem(), data); err != nil {
 			rec.Violation("model-error", err.Error()+" "+desc(), nil)
@@ -516,7 +651,7 @@ func init() {
 	core.Register(&core.Prop{
 		ID:        "C10",
 		Technique: "history monitor: seeded Marshal/Unmarshal histories on one instance with re-used, pre-populated and stale-tailed targets compared with a reference decoder implementing the merge rules; fresh decodes re-issued along the history; race lane with 8 goroutines sharing the instance",
-		Rule: "every 31st case: a plenccodec.Descriptor variable that has been walked with is the target of decoding another stored descriptor (as many fields, other layout), four times in turn; what it renders afterwards is what the codec's own descriptor renders. a third of the operations of a history are preceded by two decodes of a damaged copy of the message (cut, bit flipped, continuation bit set) into throw-away targets, whatever they return. every 17th case decodes hand-assembled maps (JSON object codec, string-keyed maps) with an entry that has no key field in second or later position into nil, empty and populated targets; every 13th case decodes hand-assembled messages whose times lack the seconds, the nanoseconds or both parts (field, pointer, nested struct, pointer to struct, existing map key) into fresh and populated targets; every 11th case decodes hand-built maps that name one key 2-4 times into nil, empty and populated targets. Otherwise one history = one fresh Plenc instance, 4 generated types, 50 (thorough 100) operations: marshal a boundary-biased value, decode it into a target that is re-used from an earlier decode / filled with a generated prior / fresh, half of the time after shortening slices in place so their backing arrays keep stale elements; " +
+		Rule: "before every decode of a history the pointees of all pointer elements of the target's slices (stale elements up to the capacity included; only pointees nothing else in the target reaches) are recorded, after it they must be unchanged: a decoded slice holds new elements. every 31st case: a plenccodec.Descriptor variable that has been walked with is the target of decoding another stored descriptor (as many fields, other layout), four times in turn; what it renders afterwards is what the codec's own descriptor renders. a third of the operations of a history are preceded by two decodes of a damaged copy of the message (cut, bit flipped, continuation bit set) into throw-away targets, whatever they return. every 17th case decodes hand-assembled maps (JSON object codec, string-keyed maps) with an entry that has no key field in second or later position into nil, empty and populated targets; every 13th case decodes hand-assembled messages whose times lack the seconds, the nanoseconds or both parts (field, pointer, nested struct, pointer to struct, existing map key) into fresh and populated targets; every 11th case decodes hand-built maps that name one key 2-4 times into nil, empty and populated targets. Otherwise one history = one fresh Plenc instance, 4 generated types, 50 (thorough 100) operations: marshal a boundary-biased value, decode it into a target that is re-used from an earlier decode / filled with a generated prior / fresh, half of the time after shortening slices in place so their backing arrays keep stale elements; " +
 			"the target is compared by value with model.Decode(prior, data); a quarter of the decodes are remembered as fresh-target decodes and re-issued later in the history, where they must give the identical result. distinct = (type, configuration, prior-shape, value-shape) hashes",
 		Assume: []string{"model.Decode states the merge rules of the statement; pointer identity and backing-array identity are not part of the property and are not compared"},
 		Plan: func(tier string) []core.Lane {
